@@ -1841,6 +1841,29 @@ class LoopCtx:
         v = self.E.lookup_local(name, self.fr)
         if v is _MISSING:
             raise KeyError(name)
+        E = self.E
+        inp = E.ps.get("inputs") or {}
+        if name in inp and isinstance(inp[name], NdArr) and E.top is not None and E.cur_func is not None and E.cur_func.key == E.top.key \
+                and isinstance(v, NdArr) and v is not inp[name] and name in self._assigned_in_function():
+            # the invariant names a data parameter, but the function has re-bound that name to another array (a converted copy, a selection):
+            # a specification over the local would follow the code wherever it goes - the contract has to say what it means (E.ps["inputs"][name]
+            # for the caller's array, or L.local(name) for the local on purpose)
+            raise Unsupported("the invariant of a loop of %s reads the parameter %r, which the function has re-bound to another array before "
+                              "the loop: the contract needs review" % (E.cur_func.key, name))
+        return v
+
+    def _assigned_in_function(self):
+        f = self.E.cur_func
+        c = getattr(f, "_assigned_names_cache", None)
+        if c is None:
+            c = f._assigned_names_cache = assigned_names(f.node.body)
+        return c
+
+    def local(self, name):
+        """the current binding of a name, also when it is a re-bound parameter (for invariants that mean the local on purpose)"""
+        v = self.E.lookup_local(name, self.fr)
+        if v is _MISSING:
+            raise KeyError(name)
         return v
 
     def old(self, name):
